@@ -6,6 +6,20 @@ CHECKS = {
    text="Bounded symbolic check: for every current status (15 incl. none), every owner/requester string up to the length bound (any Unicode) and every requested status, the real status_record_transition and the real set_invocation_status of MemOrchestrator and SQLiteOrchestrator agree with an independent specification table; refused requests leave record/index/row untouched; 2-step (thorough 3-step) sequences cross-check the induction. Every verify obligation must come back 'Confirmed over all paths'.",
    note="Bounds: strings len<=1 quick / <=2 thorough; SQLite dims finite (4 owners x 3 requesters). Stubs: sync history threads, recorder for add_history/trigger in the symbolic-string variant, counter clock. Trusted: CrossHair 0.0.110 + z3, the spec table transcribed from the docs.", ref="3/C01"),
 }
+CHECKS.update({
+ "C02": dict(cat="model_checking", tech="real transition/poll methods AST-rewritten into steppable generators; preemption points, first actor and scenario data are symbolic ints decided by CrossHair/z3; linearisability oracle from the independent status table",
+   text="Bounded symbolic schedule exploration on the real code: two concurrent claims of one invocation (both backends, every available start status) are linearisable and never both succeed; two pollers running the real get_invocations_to_run over queues with duplicate ids / blocking-priority entries never receive the same invocation and never raise. Canaries (a lock that never blocks; BEGIN IMMEDIATE removed from the AST) must be refuted within the same bounds.",
+   note="Bounds: 2 actors; quick: 2 preemptions (claims) / 1 preemption (pollers), thorough one more; slice lengths cover all yield points. Granularity: source line (mem) / SQL statement (SQLite, real sqlite3 with timeout=0). Stubs: CoopLock for threading locks, sync history threads, counter clock.", ref="3/C02"),
+ "C08": dict(cat="model_checking", tech="CrossHair/z3-decided op-code sequences on the real MemBroker and SQLiteBroker vs a list model",
+   text="For every op sequence up to the length bound over 9 op letters (route single/batch with repeats, retrieve, count, purge) both real brokers agree with a FIFO list model after every op, and draining returns exactly the routed-but-not-retrieved messages in order.",
+   note="Bounds: length<=4 quick, <=5 thorough; 3 ids. After the solver decides the op codes the real methods run concretely. Same-millisecond ordering on SQLite is observed, not controlled.", ref="3/C08"),
+ "C09": dict(cat="model_checking", tech="CrossHair/z3-decided histories + inductive step from an arbitrary symbolic edge relation on the real blocking-control implementations vs a reference wait graph",
+   text="For all histories up to the bound of wait declarations, claims and completions over 3 ids, the blocking set reported by both real implementations equals the reference definition (for limits 1, 2 and 10) and nothing stays recorded as waiting on a finished id; on the in-memory structure an inductive step from every 3-id edge relation covers histories of any length.",
+   note="Bounds: 3 ids, histories<=3 quick / 4 thorough, 512 pre-states x 15 ops. The single-slot thread-runner part is covered at mechanism level only (see DESIGN).", ref="3/C09"),
+ "C12": dict(cat="model_checking", tech="AST-to-SMT translation (pysym) of the current source of calculate_time_slot/is_runner_in_time_slot/can_run_atomic_service; z3 over Reals and over IEEE-754 doubles (QF_FP), cvc5 cross-check",
+   text="For each runner count n in the bound and all position pairs, the solver shows (unsat) that no instant authorises two runners, windows are non-empty and inside the cycle, consecutive windows are separated by the margin when it fits (exact arithmetic), and authorisation coincides with the documented window; the disjointness and non-emptiness claims are also decided in double-precision arithmetic. Every sat model is replayed on the real functions.",
+   note="Bounds: real n<=8 quick/16 thorough; fp64 n<=4 quick/8 thorough, I in [0.001,1e5] min, margin in [0,1e5]. t mod cycle is abstracted by its exact image [0,cycle). Translator validated against the real function on a concrete grid each run.", ref="3/C12"),
+})
 NA = {}
 def main():
     props=[json.loads(l)["id"] for l in open("properties.jsonl")]
